@@ -203,6 +203,9 @@ def check(repo: Repo, run: Run) -> None:
     take_over(run, "c13", "C13", repo, lambda o: o["rule"] == "R6", "R0", "objects of its own per parse",
               "state kept in an object every parser shares outlives the parse that wrote it: a cut dump parsed after the complete one "
               "reports what only the complete one contained", 1)
+    take_over(run, "c14", "C14", repo, lambda o: o["rule"] == "R2" and o["scope"] == "PyKdebugParser.__init__", "R0",
+              "tables of its own per parser", "tables that every parser object shares keep what an earlier parse learnt: a cut dump "
+              "parsed after the complete one reports what only the complete one contained", 1)
     take_over(run, "c02", "C02", repo, lambda o: o["rule"] == "R1", "R0", "record framing of a version-2 dump",
               "a dump cut anywhere must report the records that are whole: framing that depends on anything but the bytes read so "
               "far (the size of the file, a seek) reports other records for the cut dump than for the complete one", 8)
@@ -270,6 +273,15 @@ def check(repo: Repo, run: Run) -> None:
                             if r_ is not None:
                                 rd = r_
                 ok = rd is not None and rd.a[1] == (const(ks),)
+                if not ok and arg is not None and any(
+                        x.op == "call" and ((x.a[0].op == "global" and x.a[0].a[0].split(".")[0] in ("itertools", "functools"))
+                                            or x.a[0] in (T("builtin", ("map",)), T("builtin", ("iter",)))) for x in sym.walk(arg)) \
+                        and any(x.op == "attr" and x.a[1] == "read" for x in sym.walk(arg)):
+                    # the record comes out of library iterators wrapped around the stream's read (takewhile(bool, map(read,
+                    # repeat(64))), iter(partial(read, 64), b'')): whether it is the unmodified read is theirs to say
+                    run.floor_failures.append(f"C06/R2: from_kd_buf is given {sym.pretty(arg)[:70]} (line {c.lineno}): whether that is the "
+                                              f"raw result of one read({ks}) is not decided")
+                    continue
                 run.ob("R2", mod.name, c.where.replace(mod.name + ".", ""), f"from_kd_buf argument at line {c.lineno}", ok,
                        "" if ok else f"from_kd_buf is given {sym.pretty(arg)[:80] if arg is not None else 'nothing'} instead of the "
                                      f"raw result of read({ks}): a partial record is padded/altered into an event",
